@@ -606,4 +606,26 @@ theorem splineVal_scaled (s : Side) (τ : ℕ → K) (q n : ℕ) (net : List (Pt
     rw [getD_map_of_ne_nil _ _ _ (by rw [e]; simp), e]
     simp [scalePt]
 
+omit [LinearOrder K] [IsStrictOrderedRing K] in
+theorem map_setDim33 (net : List (Pt K)) (h : All4 net) : net.map (setDimPt 3 3) = net := by
+  conv_rhs => rw [← List.map_id net]
+  apply List.map_congr_left
+  intro p hp
+  obtain ⟨X, Y, Z, W, rfl⟩ := h p hp
+  simp [setDimPt]
+
+omit [LinearOrder K] [IsStrictOrderedRing K] in
+theorem all4_map_placePt (net : List (Pt K)) (h3 : Is3 net net.length) (ca sa ct st cp sp c1 c2 c3 : K) :
+    All4 (net.map (placePt ca sa ct st cp sp [c1, c2, c3])) := by
+  intro p hp
+  simp only [List.mem_map] at hp
+  obtain ⟨p0, hp0, rfl⟩ := hp
+  obtain ⟨i, hi, rfl⟩ := List.getElem_of_mem hp0
+  obtain ⟨X, Y, W, e⟩ := h3 i hi
+  rw [List.getD_eq_getElem _ _ hi] at e
+  rw [e]
+  simp only [placePt, setDimPt, rotZPt_cons]
+  simp [translatePt, weightOf]
+
+
 end Splipy.Fac
